@@ -228,6 +228,7 @@ func evalText(c Case, trace bool) verdict {
 // evalTextModels is evalText that also returns the final models (nil after a
 // failure or a discarded case).
 func evalTextModels(c Case, trace bool) (verdict, *[2]*textModel) {
+	setAllowed(c)
 	w, err := newWorld(trace, func(r *yjson.Object) { r.SetNewText("t") })
 	if err != nil {
 		return historyVerdict(w, err), nil
@@ -290,7 +291,7 @@ func evalTextModels(c Case, trace bool) (verdict, *[2]*textModel) {
 		n := len(m.units)
 		from := s.A % (n + 1)
 		to := from + s.B%(n-from+1)
-		if !kit.NoExclusions() {
+		if excluding("SURR-SPLIT") {
 			// a boundary between the halves of a surrogate pair is moved outwards
 			// (see SPEC: splitting a pair is lossy in the Go SDK)
 			moved := false
